@@ -113,6 +113,7 @@ Section Chk.
     | TPeek c => Some (Some (learn_peek a c), Some a)
     | TCurReg _ | TPeekReg _ | TRegEq _ _ | TRegGe _ _ => Some (Some a, Some a)
     | TSl _ _ => match d with Iter => if ascii then Some (Some a, Some a) else None | Byte => Some (Some a, Some a) end
+    | TAh _ _ => Some (Some a, Some a)
     end.
 
   Fixpoint chk (p : prog) (a : abs) (kb kc : abs -> bool) {struct p} : bool :=
